@@ -5,8 +5,14 @@
    invariant under every presentation change named in the property, local to unrelated
    components (with the stated ST corner), and mutually consistent.  What ties them to the code:
    C02 / C03 (status computed = cred / skep) and, on every run, the metamorphic comparison of the
-   real solvers on transformed instances (checks/C11.py). *)
+   real solvers on transformed instances (checks/C11.py).
+   Second block (theorems named C11_solver_...): the transfer to the solver MODEL: the statuses computed by
+   Model.Solvers.run_query on a presentation and on a transformed presentation are equal. *)
 From Crusta Require Import Spec.AF Spec.SemFacts Spec.Theory Spec.Invariance.
+From Crusta Require Import Sat.Cnf Sat.Prog Model.Encoders Model.Graph Model.Solvers.
+From Crusta Require Import Proofs.EncSpec Proofs.SolverBasics Proofs.TopBase Proofs.TopMax Proofs.SolverTop Proofs.Corollaries.
+From Crusta Require Proofs.SolverWholeEx.
+Import ListNotations.
 
 (* reordering / repeating attack declarations, reordering arguments *)
 Theorem C11_presentation_ext : forall s F F' S, af_equiv F F' -> (ext s F S <-> ext s F' S).
@@ -59,6 +65,137 @@ Proof. exact Theory.sst_st_collapse. Qed.
 Theorem C11_stg_is_st : forall F S, wf F -> (exists T, st F T) -> (stg F S <-> st F S).
 Proof. exact Theory.stg_st_collapse. Qed.
 
+(* ---- transfer to the SOLVER MODEL (Model.Solvers.run_query) ---------------------------------
+   The same facts for the statuses the modelled solvers COMPUTE: whenever two runs of the same
+   acceptance query complete (Done (OAcc b _): a status b, possibly a certificate), one on a
+   presentation of a framework and one on a transformed presentation, the two statuses are equal -
+   whatever the two SAT backends (any two valid oracles), thresholds >= 1, admissible encoders,
+   fuels, certificate flags and start states (i.e. whatever was asked before).  Each is
+   SolverTop.run_query_correct twice plus the semantic fact above.  Vocabulary as in C06:
+     view_good g F    the view g (iteration orders of an AAFramework) presents the framework F
+                      (it constrains membership only: C11_good_view_presentation);
+     supported s q    run_query has an entry point for (s, q): all but CO-SE, CO-DS, PR-DC;
+     enc_ok s e       the encoder may be used with the solver type;
+     al_ok s q F al   for GR / ST nothing, otherwise the listed ids are arguments of F.
+   Runs that do not complete (Abort on Unknown, OutOfFuel) carry no status; Panic is excluded by
+   C01-C04. *)
+
+(* a good view of F is a good view of every other presentation of F *)
+Theorem C11_good_view_presentation : forall g F F',
+  view_good g F -> af_equiv F F' -> wf F' -> view_good g F'.
+Proof. exact Corollaries.view_good_equiv. Qed.
+
+(* reordering / repeating attack declarations, reordering arguments (F and F' have the same
+   arguments and the same attacks, in any order and multiplicity; g and g' are ANY two good views,
+   so any two iteration orders), and reordering / repeating the queried arguments *)
+Theorem C11_solver_presentation_invariant :
+  forall o1 o2 thr1 thr2 g g' F F' s q e1 e2 al al' fuel1 fuel2 cert1 cert2 st1 st2 b1 c1 t1 b2 c2 t2,
+  valid_oracle o1 -> valid_oracle o2 -> 1 <= thr1 -> 1 <= thr2 ->
+  view_good g F -> view_good g' F' ->
+  af_equiv F F' -> (forall a, In a al <-> In a al') ->
+  q <> QSE -> supported s q -> enc_ok s e1 -> enc_ok s e2 -> al_ok s q F al ->
+  run_query o1 thr1 fuel1 s q cert1 e1 g al st1 = Done (OAcc b1 c1) t1 ->
+  run_query o2 thr2 fuel2 s q cert2 e2 g' al' st2 = Done (OAcc b2 c2) t2 ->
+  b1 = b2.
+Proof. exact Corollaries.solver_presentation_invariant. Qed.
+
+(* renaming: F' = rename f F for a relabelling f injective on the arguments of F, the queried
+   arguments mapped by f *)
+Theorem C11_solver_renaming_invariant :
+  forall o1 o2 thr1 thr2 g g' F f s q e1 e2 al fuel1 fuel2 cert1 cert2 st1 st2 b1 c1 t1 b2 c2 t2,
+  valid_oracle o1 -> valid_oracle o2 -> 1 <= thr1 -> 1 <= thr2 ->
+  view_good g F -> view_good g' (rename f F) ->
+  inj_on f (args F) -> incl al (args F) ->
+  q <> QSE -> supported s q -> enc_ok s e1 -> enc_ok s e2 ->
+  run_query o1 thr1 fuel1 s q cert1 e1 g al st1 = Done (OAcc b1 c1) t1 ->
+  run_query o2 thr2 fuel2 s q cert2 e2 g' (map f al) st2 = Done (OAcc b2 c2) t2 ->
+  b1 = b2.
+Proof. exact Corollaries.solver_renaming_invariant. Qed.
+
+(* adding / removing an unrelated part G (no common argument, hence no attack between F and G;
+   G may consist of several components); for ST provided G has a stable extension *)
+Theorem C11_solver_locality :
+  forall o1 o2 thr1 thr2 g g' F G s q e1 e2 al fuel1 fuel2 cert1 cert2 st1 st2 b1 c1 t1 b2 c2 t2,
+  valid_oracle o1 -> valid_oracle o2 -> 1 <= thr1 -> 1 <= thr2 ->
+  view_good g F -> view_good g' (disjoint_union F G) ->
+  wf G -> (forall a, In a (args F) -> ~ In a (args G)) ->
+  (s = ST -> exists S2, st G S2) ->
+  incl al (args F) ->
+  q <> QSE -> supported s q -> enc_ok s e1 -> enc_ok s e2 ->
+  run_query o1 thr1 fuel1 s q cert1 e1 g al st1 = Done (OAcc b1 c1) t1 ->
+  run_query o2 thr2 fuel2 s q cert2 e2 g' al st2 = Done (OAcc b2 c2) t2 ->
+  b1 = b2.
+Proof. exact Corollaries.solver_locality. Qed.
+
+(* the ST corner: if the unrelated part has no stable extension, every completed stable query on
+   the union says NO (credulous) / YES (skeptical), whatever the arguments *)
+Theorem C11_solver_locality_stable_corner :
+  forall o thr g' F G q e al fuel cert st0 b c t,
+  valid_oracle o -> 1 <= thr ->
+  view_good g' (disjoint_union F G) ->
+  wf F -> wf G -> (forall a, In a (args F) -> ~ In a (args G)) ->
+  (forall S2, ~ st G S2) ->
+  q <> QSE ->
+  run_query o thr fuel ST q cert e g' al st0 = Done (OAcc b c) t ->
+  b = negb (qpol q).
+Proof. exact Corollaries.solver_locality_stable_corner. Qed.
+
+(* The hypotheses are satisfiable and the runs complete: F = 0 -> 1 -> 2; F2 lists the attacks in
+   another order, one of them twice; the renaming a |-> 2 - a; the unrelated part G = 3 <-> 4 (it
+   has stable extensions); Gbad = 3 -> 3 (it has none).  Brute-force (valid) oracle. *)
+Definition c11_F := compact 3 [(0, 1); (1, 2)].
+Definition c11_F2 := compact 3 [(1, 2); (0, 1); (0, 1)].
+Definition c11_f (a : nat) := 2 - a.
+Definition c11_G : af := {| args := [3; 4]; atts := [(3, 4); (4, 3)] |}.
+Definition c11_Gbad : af := {| args := [3]; atts := [(3, 3)] |}.
+Definition c11_run s q F al :=
+  run_query SolverWholeEx.bf_oracle 1 100 s q true AuxCo (view_of_af F) al (init_st CadicalLike).
+Definition c11_status (r : res outcome) : option bool :=
+  match r with Done (OAcc b _) _ => Some b | _ => None end.
+
+Example C11_solver_example :
+  view_good (view_of_af c11_F) c11_F /\ view_good (view_of_af c11_F2) c11_F2 /\ af_equiv c11_F c11_F2 /\
+  view_good (view_of_af (compact 3 [(2, 1); (1, 0)])) (rename c11_f c11_F) /\ inj_on c11_f (args c11_F) /\
+  view_good (view_of_af (compact 5 [(0, 1); (1, 2); (3, 4); (4, 3)])) (disjoint_union c11_F c11_G) /\
+  wf c11_G /\ (forall a, In a (args c11_F) -> ~ In a (args c11_G)) /\ (exists S2, st c11_G S2) /\
+  view_good (view_of_af (compact 4 [(0, 1); (1, 2); (3, 3)])) (disjoint_union c11_F c11_Gbad) /\
+  (forall S2, ~ st c11_Gbad S2) /\
+  c11_status (c11_run ST QDC c11_F [2]) = Some true /\
+  c11_status (c11_run ST QDC c11_F2 [2; 2]) = Some true /\
+  c11_status (c11_run ST QDC (compact 3 [(2, 1); (1, 0)]) (map c11_f [2])) = Some true /\
+  c11_status (c11_run ST QDC (compact 5 [(0, 1); (1, 2); (3, 4); (4, 3)]) [2]) = Some true /\
+  c11_status (c11_run ST QDC (compact 4 [(0, 1); (1, 2); (3, 3)]) [2]) = Some false /\
+  c11_status (c11_run ST QDS (compact 4 [(0, 1); (1, 2); (3, 3)]) [1]) = Some true.
+Proof.
+  assert (Hc : forall n l, atts_okb n l = true -> view_good (view_of_af (compact n l)) (compact n l)).
+  { intros n l H. apply (view_good_compact _ n). split; [reflexivity|].
+    intros a b Hin. unfold atts_okb in H. rewrite forallb_forall in H. specialize (H _ Hin).
+    cbn [fst snd] in H. apply andb_prop in H. destruct H as [H1 H2].
+    apply Nat.ltb_lt in H1. apply Nat.ltb_lt in H2. split; assumption. }
+  assert (Hw1 : wf (rename c11_f c11_F)).
+  { split; [repeat constructor; cbn; intuition discriminate|].
+    intros a b H; cbn in H. destruct H as [H|[H|[]]]; injection H as <- <-; cbn; tauto. }
+  assert (Hw2 : wf c11_G).
+  { split; [repeat constructor; cbn; intuition discriminate|].
+    intros a b H; cbn in H. destruct H as [H|[H|[]]]; injection H as <- <-; cbn; tauto. }
+  split; [apply Hc; reflexivity|]. split; [apply Hc; reflexivity|].
+  split.
+  { split; [intros a; reflexivity|]. intros a b. unfold att, c11_F, c11_F2, compact. cbn [atts In]. tauto. }
+  split.
+  { apply (view_good_equiv _ (compact 3 [(2, 1); (1, 0)])); [apply Hc; reflexivity| |exact Hw1].
+    split; [intros a; cbn; tauto|]. intros a b. unfold att. cbn. tauto. }
+  split.
+  { intros a b Ha Hb. cbn in Ha, Hb. unfold c11_f.
+    destruct Ha as [<-|[<-|[<-|[]]]]; destruct Hb as [<-|[<-|[<-|[]]]]; cbn; congruence. }
+  split; [exact (Hc 5 [(0, 1); (1, 2); (3, 4); (4, 3)] eq_refl)|]. split; [exact Hw2|].
+  split. { intros a Ha Hb. cbn in Ha, Hb. destruct Hb as [<-|[<-|[]]]; destruct Ha as [E|[E|[E|[]]]]; discriminate. }
+  split. { exists [3]. apply stb_st. reflexivity. }
+  split; [exact (Hc 4 [(0, 1); (1, 2); (3, 3)] eq_refl)|].
+  split. { intros S2 H. assert (E : all_exts ST c11_Gbad = []) by reflexivity.
+           destruct (all_exts_complete ST c11_Gbad S2 H) as [T [HT _]]. rewrite E in HT. exact HT. }
+  repeat split; vm_compute; reflexivity.
+Qed.
+
 Print Assumptions C11_presentation_ext.
 Print Assumptions C11_presentation_cred.
 Print Assumptions C11_presentation_skep.
@@ -73,3 +210,8 @@ Print Assumptions C11_dc_co_eq_dc_pr.
 Print Assumptions C11_skep_implies_cred.
 Print Assumptions C11_sst_is_st.
 Print Assumptions C11_stg_is_st.
+Print Assumptions C11_good_view_presentation.
+Print Assumptions C11_solver_presentation_invariant.
+Print Assumptions C11_solver_renaming_invariant.
+Print Assumptions C11_solver_locality.
+Print Assumptions C11_solver_locality_stable_corner.
